@@ -110,7 +110,7 @@ def run(ctx):
         if len(conds) == 1 and conds[0][0] == "cmp" and conds[0][1] in ("le", "lt") and conds[0][2] == limit:
             mx = conds[0][3]
             strict = conds[0][1] == "lt"
-            if mx[0] == "call" and mx[1] in ("numpy.max", "max", "numpy.amax") and len(mx[2]) == 1:
+            if mx[0] == "call" and mx[1] == "max" and len(mx[2]) == 1:
                 angles = mx[2][0]
                 if angles[0] == "map" and angles[4] == T.TRUE:
                     elt, b, it = angles[1], angles[2], angles[3]
